@@ -1,21 +1,25 @@
 (* Evaluation entry points for C14 cases. *)
 From stdpp Require Import strings gmap sets.
-From CG Require Export Base.Cases Base.Oracle Model.FastVerilog Proofs.FastVerilogProofs.
+From Coq Require Import Ascii.
+From CG Require Export Base.Cases Base.Oracle Model.FastVerilog Model.FastVerilogText Proofs.FastVerilogProofs.
 Open Scope string_scope.
 
 Inductive case :=
 | CParse (a : ast) (bbs : list bbdef) (fast full : res Circuit)   (* one text read both ways; a = the AST it was rendered from *)
-| CSupport (label : string) (ok : bool).                          (* Python-side comparison of a large bundled netlist (support only) *)
+| CSupport (label : string) (ok : bool)
+| CSplit (codes : list nat) (pieces : list (list nat)).           (* Python's [n.strip() for n in s.split(",")] on a string given by its character codes *)                          (* Python-side comparison of a large bundled netlist (support only) *)
 
 (* short constructors for the generated files *)
 Notation N := ONet (only parsing).
 Notation K := OConst (only parsing).
 Definition A (name : string) (ports : list string) (items : list item) := {| a_name := name; a_ports := ports; a_items := items |}.
 
+Definition str_of (codes : list nat) : string := string_of_list_ascii (ascii_of_nat <$> codes).
 Definition agree (k : case) : bool :=
   match k with
   | CParse a bbs f l => bool_decide (fast_sem a bbs = f) && bool_decide (full_sem a bbs = l)
   | CSupport _ _ => true
+  | CSplit codes pieces => bool_decide (fast_split (str_of codes) = str_of <$> pieces)
   end.
 
 (* pin nets of every registered instance, constant drivers by their canonical name *)
@@ -42,4 +46,5 @@ Definition holds (k : case) : bool :=
         end
       else true                       (* outside the documented subset the property is silent *)
   | CSupport _ ok => ok
+  | CSplit _ _ => true
   end.
